@@ -23,14 +23,17 @@ var ctlCounter int
 // R14.globals: a store to package-level state
 func ctlBump() int { ctlCounter++; return ctlCounter }
 
-// R14.recv / R07.writers: a method other than Set storing through *T
+// R14.recv / R07.writers: a scoring method (documented API: exported, no
+// parameter, one float64) whose helper stores through *T
 func (c *CVSS31) ctlTouch() { c.u0 = 1 }
+func (c *CVSS31) CtlScore() float64 { c.ctlTouch(); return 0 }
 
 // R14.census: a goroutine; R17.constructs: a function literal
 func ctlGo() { go func() {}() }
 
-// R17.constructs: non-constant string concatenation and an allocating callee on an exported API path
+// R17.constructs: non-constant string concatenation and an allocating callee on a path of a scoring method
 func CtlConcat(a, b string) string { return ctlstrings.ToUpper(a) + b }
+func (c CVSS31) CtlScore2() float64 { return float64(len(CtlConcat("a", "b"))) }
 
 // R18.ptr: a typed error returned by value
 func ctlErr() error { return ErrInvalidMetric{Abv: "x"} }
